@@ -88,9 +88,9 @@ class Ob:
 
 
 def generate(targets, procs=16):
-    ctx = mp.get_context("fork")
-    with ctx.Pool(min(procs, max(1, len(targets)))) as pool:
-        return pool.map(_gen_one, targets, chunksize=1)
+    """all paths of all target functions, explored by a pool of workers (pargen.py)"""
+    from . import pargen
+    return pargen.generate(load_world, targets, procs)
 
 
 def discharge_all(gens, timeout_ms):
@@ -113,14 +113,7 @@ def check_covers(gens):
     for g in gens:
         if g["ok"]:
             tasks.extend(g["covers"])
-    bad = []
-    if tasks:
-        ctx = mp.get_context("fork")
-        with ctx.Pool(16) as pool:
-            for name, r in pool.imap_unordered(solve._cover_one, tasks, chunksize=4):
-                if r == "vacuous":
-                    bad.append(name)
-    return len(tasks), bad
+    return len(tasks), solve.run_cover_tasks(tasks)
 
 
 # ---------------------------------------------------------------- bounded run-time part
@@ -379,8 +372,13 @@ def write_evidence(pid, tier, seed, spec, gens, obs, res, lemma_res, n_obl, disc
         a = f"known finding {kf['id']}: obligations are discharged outside the region [{kf.get('region','')}]"
         if a not in assumptions:
             assumptions.append(a)
+    # obligations refuted by an OPEN known finding are not obligations of the claim "everything else is proved": they
+    # are reported on their own (with the KNOWN-FINDING line) and left out of both counts
+    _known = load_known()
+    kf_obl = sorted(o.name for o in obs if res[o.name][0] != "unsat" and match_known(pid, o.name, _known) is not None)
     cov = {
-        "obligations": n_obl, "discharged": discharged,
+        "obligations": n_obl - len(kf_obl), "discharged": discharged,
+        "known_finding_obligations": kf_obl,
         "checker_cmd": f"./check {pid} --tier {tier}   (pyvc: ast -> VCs from {SRC}/cminx/*.py, z3 5.1 / cvc5 / z3 4.8.12)",
         "trusted_base": sorted(trusted),
         "functions_under_contract": functions,
